@@ -9,6 +9,7 @@ import Proofs.E2E.C02
 import Proofs.C02.EndToEnd
 import Proofs.C02.BmsSig
 import Proofs.C02.Entry
+import Proofs.C02.BmsEc
 /-!
 # C02 — ECDSA: signatures verify, verification is the SEC 1 equation, recovery, DER is canonical
 
@@ -186,7 +187,11 @@ theorem bms_accepts_table : ∀ rf ∈ List.range 70,
     for their own type, 27..34 for p2pkh, 31..34 also for both segwit types, the Electrum rule), in particular for the
     address it was signed for; the flag is in 27..42 and `s` is low.  For every `Lawful` group with `p < 2n` (then
     `key_id < 4`; secp256k1's case), any HMAC, any `hash160` and any point serialization that is a function of the group
-    element (`hser`); `hX`: the x-coordinate screen of `Sig.assert_valid` is complete (proved for `isXCoord`, T2′). -/
+    element (`hser`); `hX`: the x-coordinate screen of `Sig.assert_valid` is complete (proved for `isXCoord`, T2′).
+    INSTANCES ON ELLIPTIC CURVES (every hypothesis discharged): `bms_sign_then_verify_ec` below, on the lawful carrier
+    `opsSub K` of C01 (reduced valid pairs of the n-torsion computed with `Btc.EC.ops C`), its secp256k1 instance, and a
+    concrete run on the proved 31-point toy curve.  `Lawful (EC.ops C)` over RAW pairs is uninhabited (raw pairs are not
+    reduced), so the statement lives on the carrier. -/
 theorem bms_sign_then_verify (L : Lawful o G) (E : Bms.Env α) (isX : ℤ → Bool)
     (hX : ∀ P, L.abs P ≠ 0 → isX (o.x P) = true)
     (hser : ∀ P Q c, L.abs P = L.abs Q → E.ser P c = E.ser Q c) (hp : o.p < 2 * o.n)
@@ -412,6 +417,60 @@ theorem ecdsa_verify_entry_total (C : Curve) (hlen : ℕ) (m : Bytes) (Q : Point
 -- non-vacuity: garbage in, `False` out (no third outcome), on inputs of the "wrong" sizes
 example : verifyDer 32 [] (0, 0) [] = false := by decide
 example : verifyDer 32 [1, 2, 3] (-5, 7) [0x30, 0x06, 0x02, 0x01, 0x01, 0x02, 0x01, 0x01] = false := by decide +kernel
+
+/-- T8d ON AN ELLIPTIC CURVE, all hypotheses of `bms_sign_then_verify` discharged: for every `CurveOk` curve with
+    `p ≡ 3 (mod 4)` (recovery: `lift_x`) and `p < 2n`, any point serialization `ser` of integer pairs, any `hash160`, any
+    HMAC — on C01's lawful carrier `opsSub K` (`Lawful` = `lawful_ec`; `hX` = `isXCoord_complete`; `hser` =
+    `bmsEnvSub_hser`, from `absA_inj`: two carrier elements denoting one point are one pair).  `bmsEnvSub` writes `ser`
+    of the underlying pair and nothing for infinity (which `bytes_from_point` refuses).
+    WHAT KEEPS IT ON THE CARRIER (not restated over raw `Btc.EC.ops C`): `Bms.sign` / `Bms.assertAsValid` call `lift_x`
+    (inside `recover`) and serialize points; their runs over `opsSub K` and over `EC.ops C` coincide only through the
+    `OpsHom` run-equality (`lift_x` restricted to the n-torsion = executed `lift_x`: true under cofactor one, proved for
+    secp256k1) and `ser` agreeing at infinity — that run-equality for the two bms functions is NOT proved here; on
+    secp256k1 the executed `EC.ops` runs are stream-compared with btclib on both arms (`bms.sign`, `bms.verify`). -/
+theorem bms_sign_then_verify_ec {p : ℕ} [Fact p.Prime] {C : Curve} (K : CurveOk p C) (h34 : p % 4 = 3)
+    (hp2n : C.p < 2 * C.n) (ser : Point → Bool → Bytes) (h160 : Bytes → Bytes) (H : Rfc6979.HashSpec) (mm : Bytes)
+    (q : ℤ) (comp : Bool) (addr : Option Bms.Addr) (fuel : ℕ) (rf : ℕ) (r s : ℤ)
+    (h : Bms.sign (opsSub K) (bmsEnvSub ser h160 : Bms.Env (SubPt p C)) H mm q comp addr fuel = .ok (rf, r, s)) :
+    (∀ t, Bms.accepts t rf = true →
+        Bms.assertAsValid (opsSub K) (bmsEnvSub ser h160 : Bms.Env (SubPt p C)) (isXCoord C) (Rfc6979.challenge C.n mm)
+          (Bms.addrOf (bmsEnvSub ser h160 : Bms.Env (SubPt p C)) t
+            ((bmsEnvSub ser h160 : Bms.Env (SubPt p C)).ser ((opsSub K).mul q (opsSub K).gen) comp)) rf r s = .ok ()) ∧
+    (∃ t, Bms.ownType (bmsEnvSub ser h160 : Bms.Env (SubPt p C))
+        ((bmsEnvSub ser h160 : Bms.Env (SubPt p C)).ser ((opsSub K).mul q (opsSub K).gen) comp) comp addr = some t ∧
+        Bms.accepts t rf = true) ∧
+    27 ≤ rf ∧ rf ≤ 42 ∧ s ≤ C.n / 2 :=
+  Btc.E2E.bms_sign_then_verify_ec K h34 hp2n ser h160 H mm q comp addr fuel rf r s h
+
+/-- T8d on secp256k1's lawful carrier `SecpPt` (cofactor one proved: it holds EVERY reduced valid pair of the curve);
+    `p ≡ 3 (mod 4)`, `p < 2n`, primality: all by kernel evaluation / Pratt certificates — nothing assumed -/
+theorem bms_sign_then_verify_secp256k1_carrier
+    (ser : Point → Bool → Bytes) (h160 : Bytes → Bytes) (H : Rfc6979.HashSpec) (mm : Bytes) (q : ℤ) (comp : Bool)
+    (addr : Option Bms.Addr) (fuel : ℕ) (rf : ℕ) (r s : ℤ)
+    (h : Bms.sign secpOps (bmsEnvSub ser h160 : Bms.Env SecpPt) H mm q comp addr fuel = .ok (rf, r, s)) :
+    (∀ t, Bms.accepts t rf = true →
+        Bms.assertAsValid secpOps (bmsEnvSub ser h160 : Bms.Env SecpPt) (isXCoord secp256k1)
+          (Rfc6979.challenge secp256k1.n mm)
+          (Bms.addrOf (bmsEnvSub ser h160 : Bms.Env SecpPt) t
+            ((bmsEnvSub ser h160 : Bms.Env SecpPt).ser (secpOps.mul q secpOps.gen) comp)) rf r s = .ok ()) ∧
+    (∃ t, Bms.ownType (bmsEnvSub ser h160 : Bms.Env SecpPt)
+        ((bmsEnvSub ser h160 : Bms.Env SecpPt).ser (secpOps.mul q secpOps.gen) comp) comp addr = some t ∧
+        Bms.accepts t rf = true) ∧
+    27 ≤ rf ∧ rf ≤ 42 ∧ s ≤ secp256k1.n / 2 :=
+  Btc.E2E.bms_sign_then_verify_secp256k1_carrier ser h160 H mm q comp addr fuel rf r s h
+
+-- T8d fully discharged on an elliptic curve: `y² = x³ + 7` over `F₄₃` (31 points, `CurveOk` PROVED, 43 ≡ 3 mod 4,
+-- 43 < 62): `bms.sign` over the carrier answers (31, 7, 12) (`toy_bms_sign`, kernel evaluation), hence the flag-31
+-- signature opens to the p2pkh, p2wpkh-p2sh and p2wpkh addresses of the key (Electrum rule) — no hypothesis left
+example : ∀ t, Bms.accepts t 31 = true →
+    Bms.assertAsValid (opsSub toyOk) (bmsEnvSub (Bms.secSer 1) id : Bms.Env (SubPt 43 toyC)) (isXCoord toyC)
+      (Rfc6979.challenge toyC.n [0x1f])
+      (Bms.addrOf (bmsEnvSub (Bms.secSer 1) id : Bms.Env (SubPt 43 toyC)) t
+        ((bmsEnvSub (Bms.secSer 1) id : Bms.Env (SubPt 43 toyC)).ser ((opsSub toyOk).mul 5 (opsSub toyOk).gen) true))
+      31 7 12 = .ok () :=
+  (bms_sign_then_verify_ec toyOk (by decide) (by decide) (Bms.secSer 1) id ⟨fun _ _ => [0x10], 1⟩ [0x1f] 5 true none 4
+    31 7 12 toy_bms_sign).1
+example : Bms.accepts .p2sh 31 = true ∧ Bms.accepts .p2wpkh 31 = true ∧ Bms.accepts .p2pkh 31 = true := by decide
 
 /-- T2′ with no cofactor hypothesis, any `CurveOk` curve, keys of the `n`-torsion carrier (every key built from `G`):
     the public boolean with the executed x-coordinate screen is the SEC 1 relation -/
